@@ -202,6 +202,10 @@ pub fn run(tier: Tier) -> i32 {
     // wasm path: records enter through apply_suggestion / import_stats_file
     let wasm_traces = wasm_round_trip(&mut report, tier);
     traces += wasm_traces;
+    // server path: HarperRecordLint commands, the log appended at every shutdown
+    let server_traces = server_sessions(&mut report, tier);
+    traces += server_traces;
+    report.set("server_histories", server_traces);
 
     report.set("states", states.len() as u64);
     report.set("transitions", transitions);
@@ -215,6 +219,98 @@ pub fn run(tier: Tier) -> i32 {
     report.assume("record lists up to the length bound over a 6-record alphabet covering newline, quote, backslash, CR, U+2028, NUL, U+0085, DEL, astral characters");
     report.assume("the explored object is the implementation (Stats::write/read/summarize, harper_wasm::Linter stats methods); every trace is an execution of it");
     report.finish()
+}
+
+/// One server history (operation index 6 = shutdown and new server); the final shutdown is implied.
+fn server_history(seq: &[usize]) -> Result<Option<(String, Value)>, String> {
+    use crate::c09::Session;
+    let alpha = alphabet();
+    let restart = alpha.len();
+    let mut sess = Session::new("c19")?;
+    let mut want: Vec<RecordKind> = vec![];
+    let mut ops: Vec<usize> = seq.clone();
+    ops.push(restart); // the final shutdown
+    for o in &ops {
+        if *o == restart {
+            let req = sess.server.request("shutdown", Value::Null);
+            sess.server.enqueue("shutdown", req);
+            sess.server.run_default()?;
+            sess.restart()?;
+        } else {
+            let arg = serde_json::to_string(&alpha[*o].kind).map_err(|e| e.to_string())?;
+            let req = sess.server.request("workspace/executeCommand", json!({"command": "HarperRecordLint", "arguments": [arg]}));
+            sess.server.enqueue("record", req);
+            sess.server.run_default()?;
+            want.push(alpha[*o].kind.clone());
+        }
+    }
+    let bytes = std::fs::read(&sess.world.stats).unwrap_or_default();
+    let text = String::from_utf8_lossy(&bytes).to_string();
+    sess.world.cleanup();
+    let back = match Stats::read(&mut std::io::Cursor::new(&bytes)) {
+        Ok(b) => b,
+        Err(e) => return Ok(Some(("server:log-unreadable".into(), json!({"error": e.to_string(), "file": text})))),
+    };
+    let got: Vec<&RecordKind> = back.records.iter().map(|r| &r.kind).collect();
+    if got.len() != want.len() || got.iter().zip(want.iter()).any(|(a, b)| *a != b) {
+        return Ok(Some(("server:log-differs-from-recorded".into(), json!({"recorded": want.len(), "read_back": got.len(), "file": text}))));
+    }
+    let ids: BTreeSet<String> = back.records.iter().map(|r| r.uuid.to_string()).collect();
+    if ids.len() != back.records.len() {
+        return Ok(Some(("server:record-identifiers-repeat".into(), json!({"file": text}))));
+    }
+    let recs: Vec<Record> = back.records.clone();
+    let (total, _, _) = ref_summary(&recs);
+    if back.summarize().total_applied != total {
+        return Ok(Some(("server:summary-total-wrong".into(), json!({"got": back.summarize().total_applied, "want": total}))));
+    }
+    Ok(None)
+}
+
+/// harper-ls: every history over {HarperRecordLint(kind k), shutdown + new server process} on one
+/// statistics file; after the final shutdown the real reader must return exactly the recorded
+/// kinds, in order, each with its own identifier, and the summary must count each once.
+fn server_sessions(report: &mut Report, tier: Tier) -> u64 {
+    use crate::c09::Session;
+    crate::e3::sandbox_env();
+    let alpha = alphabet();
+    let k = alpha.len();
+    let restart = k; // operation index of "shutdown, start a new server"
+    let depth = tier.pick(3, 4);
+    let seqs = crate::e2::sequences(k + 1, depth);
+    let results = crate::pool::par_chunks(seqs.len() as u64, 8, ncpu(), |s, e| {
+        let mut viols = vec![];
+        let mut traces = 0u64;
+        for i in s..e {
+            let seq = &seqs[i as usize];
+            traces += 1;
+            let case = json!({"engine":"E3","object":"harper-ls statistics","history": seq.iter().map(|o| if *o == restart { "shutdown; new server".to_string() } else { format!("HarperRecordLint(record kind {o})") }).collect::<Vec<_>>(), "ops": seq});
+            let r = catch(|| server_history(seq));
+            match r {
+                Ok(Ok(None)) => {}
+                Ok(Ok(Some((sig, detail)))) => {
+                    if viols.len() < 3 {
+                        viols.push(Violation { sig, case, detail });
+                    }
+                }
+                Ok(Err(e)) => viols.push(Violation { sig: format!("machinery: {e}"), case, detail: json!({}) }),
+                Err(p) => viols.push(Violation { sig: "server:panic".into(), case, detail: json!({"msg": p.msg}) }),
+            }
+        }
+        (traces, viols)
+    });
+    let mut t = 0;
+    for (tr, vs) in results {
+        t += tr;
+        for v in vs {
+            if v.sig.starts_with("machinery") {
+                report.machinery(v.sig);
+            } else {
+                report.violation(v);
+            }
+        }
+    }
+    t
 }
 
 /// harper_wasm::Linter: apply_suggestion records a lint; generate_stats_file / import_stats_file.
@@ -315,6 +411,19 @@ fn wasm_round_trip(report: &mut Report, tier: Tier) -> u64 {
 
 pub fn replay(case: &Value) -> Vec<(String, Value)> {
     let alpha = alphabet();
+    if case["object"] == "harper-ls statistics" {
+        crate::e3::sandbox_env();
+        let seq: Vec<usize> = case["ops"].as_array().map(|a| a.iter().filter_map(|x| x.as_u64().map(|v| v as usize)).collect()).unwrap_or_default();
+        if seq.iter().any(|i| *i > alpha.len()) {
+            return vec![("bad-replay-file".into(), json!({}))];
+        }
+        return match catch(|| server_history(&seq)) {
+            Ok(Ok(None)) => vec![],
+            Ok(Ok(Some(p))) => vec![p],
+            Ok(Err(e)) => vec![(format!("machinery: {e}"), json!({}))],
+            Err(p) => vec![("server:panic".into(), json!({"msg": p.msg}))],
+        };
+    }
     let idx: Vec<usize> = case["records"].as_array().map(|a| a.iter().filter_map(|x| x.as_u64().map(|v| v as usize)).collect()).unwrap_or_default();
     if idx.iter().any(|i| *i >= alpha.len()) {
         return vec![("bad-replay-file".into(), json!({}))];
